@@ -13,7 +13,7 @@ RULE = ('one run = 1-3 generated proxy requests (grammar: method, absolute-form 
         'origin over sockets with drawn capacities; the origin byte stream is parsed by h11 and compared with '
         'the reference transform of what the client sent; non-trivial = some request was delivered in >= 2 '
         'segments or some upstream write was partial; distinct = distinct event-log digests')
-PROBES = ['upgrade_followup', 'followup_request', 'chunked_request', 'empty_chunked_body', 'auth', 'disabled_headers',
+PROBES = ['upgrade_followup', 'request_after_declined_upgrade', 'followup_request', 'chunked_request', 'empty_chunked_body', 'auth', 'disabled_headers',
           'segmented_request', 'partial_upstream_write', 'http10']
 COMPONENTS = {
     'real': ['proxy/http/handler.py', 'proxy/http/proxy/server.py', 'proxy/http/proxy/auth.py',
@@ -63,16 +63,20 @@ def run_one(tape: Any, cfg: Dict[str, Any], forbid: FrozenSet[str] = frozenset()
                 extra.append((b'Proxy-Connection', b'keep-alive'))
             path = [None, b'', b'/'][tape.weighted([6, 1, 1], 'pathkind')]
             methods = [b'GET', b'POST', b'PUT', b'DELETE', b'PATCH', b'OPTIONS', b'HEAD', b'PROPFIND']
-            upgrade = i > 0 and i == nreq - 1 and g.feature('upgrade_followup', 0.15)
+            upgrade = i > 0 and g.feature('upgrade_followup', 0.15)
+            if upgrade and i < nreq - 1 and not g.note('request_after_declined_upgrade'):
+                upgrade = False
             if upgrade:
-                # the last request asks for a protocol switch (the origin declines with a plain 200): still one request,
-                # to be forwarded like any other
+                # a request asks for a protocol switch (the origin declines with a plain 200): still one request, to be
+                # forwarded like any other, and so are the requests after it
                 extra = [(b'Connection', b'Upgrade'), (b'Upgrade', b'websocket')] + extra
                 methods = [b'GET']
                 w.probe('upgrade_followup')
             raw, meta = gen_request(tape, g, form='absolute', host=b'up.example', port=port,
                                     max_body=cfg['max_body'], extra=extra, path=path, methods=methods,
                                     allow_http10=(i == nreq - 1 and not upgrade))
+            if upgrade and i < nreq - 1:
+                w.probe('request_after_declined_upgrade')
             reqs.append((raw, meta))
         total = sum(len(r) for r, _ in reqs)
         floor = scen.unit_floor(total, 400)
